@@ -58,6 +58,36 @@ Proof.
     destruct (IH (e :: seen) H) as [[<-|H1]|H1]; [right; left; reflexivity|left; auto|right; right; auto].
 Qed.
 
+Lemma dedupE_NoDup seen l : NoDup (dedupE seen l) /\ forall x, In x (dedupE seen l) -> ~ In x seen.
+Proof.
+  revert seen. induction l as [|e t IH]; intros seen; cbn; [split; [constructor|intros x []]|].
+  destruct (mem_edge e seen) eqn:E; [apply IH|].
+  destruct (IH (e :: seen)) as [H1 H2]. split.
+  - constructor; auto. intros Hin. apply (H2 e Hin). left; reflexivity.
+  - intros x [<-|Hx].
+    + intros Hin. apply mem_edge_In in Hin. congruence.
+    + intros Hin. apply (H2 x Hx). right; auto.
+Qed.
+
+
+(* prepare() leaves an edge list of valid, pairwise different (as keys) edges alone, whichever of the two source forms *)
+Lemma keep_flags_all N es : forall seen,
+  forallb (edge_valid N) es = true -> NoDup (map keyE es) -> (forall k, In k seen -> ~ In k (map keyE es)) ->
+  forallb (fun b => b) (keep_flags N seen es) = true.
+Proof.
+  induction es as [|e t IH]; intros seen Hv Hnd Hseen; [reflexivity|].
+  cbn [forallb map] in Hv, Hnd. apply andb_true_iff in Hv as [Hv1 Hv2]. inversion Hnd as [|? ? Hn Hnd']; subst.
+  assert (Hm : mem_edge (keyE e) seen = false).
+  { destruct (mem_edge (keyE e) seen) eqn:E; [|reflexivity]. exfalso. apply mem_edge_In in E. apply (Hseen _ E). left. reflexivity. }
+  cbn [keep_flags]. rewrite Hv1, Hm, andb_false_r. cbn [negb andb forallb]. apply IH; auto.
+  intros k [<-|Hk] Hin; [contradiction|]. apply (Hseen k Hk). right. exact Hin.
+Qed.
+Lemma prepare_edges_clean N es :
+  forallb (edge_valid N) es = true -> NoDup (map keyE es) -> prepare_edges N es = (map keyE es, false).
+Proof.
+  intros Hv Hnd. unfold prepare_edges. cbv zeta. rewrite (keep_flags_all N es [] Hv Hnd); [reflexivity|]. intros k [].
+Qed.
+
 Section Accept2.
 Context {P : Type} (O : pops P).
 Notation raw := (raw P).
@@ -385,7 +415,11 @@ Proof.
   { apply forallb_forall. intros e He. destruct (Hes e He) as [f [a [b [Hf [Hd ->]]]]].
     unfold input_ok in Hin. rewrite Forall_forall in Hin. destruct (Hin f Hf) as [[_ Hv] Hne].
     rewrite Forall_forall in Hv. apply dedges_In in Hd as Hab. destruct Hab as [Ha Hb]. apply keyE_valid; auto. }
-  unfold prepare_edges. rewrite Hvalid. cbn [pr].
+  assert (Hnd : NoDup es).
+  { unfold es, complete_edges. destruct F as [|f0 F0]; [constructor|]. cbn [app map]. apply dedupE_NoDup. }
+  assert (Hid : map keyE es = es).
+  { rewrite <- (map_id es) at 2. apply map_ext_in. intros e He. destruct (Hes e He) as [f [a [b [_ [_ ->]]]]]. apply keyE_idem. }
+  rewrite (prepare_edges_clean _ _ Hvalid) by (rewrite Hid; exact Hnd). cbn [pr].
   unfold WF, nV. cbn [rv re rf]. unfold input_ok in Hin. split; [|split].
   - eapply Forall_impl; [|exact Hin]. intros f [H _]. exact H.
   - apply Forall_forall. intros e He. apply in_map_iff in He as [e0 [<- He0]].
